@@ -72,6 +72,17 @@ func init() {
 				}
 			}
 			// the sub-command itself (analysis/dep/app, `deps -p DIR`): its table is the observation point
+			// the working directory holds the report files of an earlier `coca analysis` of ANOTHER project
+			wd0, _ := os.Getwd()
+			work := c19Scratch()
+			defer os.RemoveAll(work)
+			os.MkdirAll(filepath.Join(work, "coca_reporter"), 0o755)
+			os.WriteFile(filepath.Join(work, "coca_reporter", "deps.json"),
+				[]byte(`[{"NodeName":"Old","Type":"Class","Package":"old.pkg","Imports":[{"Source":"old.lib.Thing"}]}]`), 0o644)
+			os.WriteFile(filepath.Join(work, "coca_reporter", "identify.json"), []byte(`[]`), 0o644)
+			if err := os.Chdir(work); err == nil {
+				defer os.Chdir(wd0)
+			}
 			var buf bytes.Buffer
 			cmd := depapp.NewRootCmd(&buf)
 			cmd.SetArgs([]string{"deps", "-p", dir})
